@@ -154,6 +154,22 @@ def main():
         ck.fail("C02-refused-request-marks-live-order-violation", "a control refusing a CANCEL marked the live EXECUTABLE order VIOLATION", {"case": f1, "impl": fr[0]})
     if fr[1]["final"][0][1] == "PENDING" and fr[1]["results"] == [4]:
         ck.fail("C02-place-of-placed-order-sets-pending", "place_order of an order already in the blotter set it PENDING and then raised OrderError", {"case": f2, "impl": fr[1]})
+    # the size-reduction guard at its boundary, off the penny grid (outside the integer-cent model): a cancel asking for more than what remains -
+    # by a tenth of a penny up to a penny - is refused with OrderUpdateError and leaves the order as it is; exactly what remains, or less, is accepted
+    bcases, bexp = [], []
+    for rem in (200, 500):
+        for extra, accept in ((-100, True), (-0.4, True), (0, True), (0.1, False), (0.4, False), (0.49, False), (0.5, False), (1, False), (100, False)):
+            bcases.append({"orders": [{"name": 1, "kind": "L", "status": "EXECUTABLE", "bet": True, "inb": True, "rem": rem, "price": 200, "persist": "LAPSE"}],
+                           "items": [{"k": "cancel", "name": 1, "red": rem + extra, "force": False, "ok": True}]})
+            bexp.append(accept)
+    bres = run_impl("c02", {"cases": bcases})["out"]
+    bbad = [i for i, (r, acc) in enumerate(zip(bres, bexp)) if (r["results"] != [0] or r["final"][0][1] != "CANCELLING" or len(r["packages"]) != 1) if acc] + \
+           [i for i, (r, acc) in enumerate(zip(bres, bexp)) if (r["results"] != [2] or r["final"][0][1] != "EXECUTABLE" or r["final"][0][4] is not None or r["packages"]) if not acc]
+    ck.family("size_reduction_guard_at_its_boundary", len(bcases), len(bcases), [], sorted(bbad), exhaustive=False, dist={"accepted_expected": sum(bexp), "refused_expected": len(bexp) - sum(bexp)})
+    for i in sorted(bbad)[:2]:
+        ck.fail("C02-size-reduction-guard", "cancel with size reduction %s (hundredths) on an order with %s remaining: expected %s, got result %s, status %s, update data %s, packages %s" % (
+            bcases[i]["items"][0]["red"], bcases[i]["orders"][0]["rem"], "accepted and sent once" if bexp[i] else "OrderUpdateError and no change", bres[i]["results"], bres[i]["final"][0][1], bres[i]["final"][0][4], bres[i]["packages"]),
+            {"case": bcases[i], "impl": bres[i], "how": "harness/impl/c02.py"})
     return ck.finish("request storms on a real Market/Transaction with real orders (0-700 requests of mixed kinds over market versions None/0/1/2/3, inside `with market.transaction()` blocks with explicit execute(), exceptions caught inside or escaping the block, or as direct market calls; per-request control verdict from an oracle control; every order status at request time; force on/off; counts around 199/200/201 and 59/60/61 and multiples): per-request result, captured packages and final order state compared in Coq with the model; Betdaq orders are not exercised")
 
 
